@@ -178,6 +178,9 @@ def judge(case, im, mo):
     def clauses(rec, segs, label):
         """count and 'passes through the stored prediction' for one plotted source"""
         out = []
+        if any(abs(x) > 20 for x in rec['sc'][:nsel]):
+            tags.append('extreme-scale-skipped')       # a nearly singular regression gave |scale| > 20 dex: 10**(2 scale) leaves the float range, nothing is drawn
+            return out
         if len(segs) != nsel * ncur:
             return ['count: %s%d curves drawn for %d selected fits in mode %s (%d per fit)' % (label, len(segs), nsel, case['mode'], ncur)]
         for pos, (fi, cj) in enumerate(clist):
@@ -211,7 +214,7 @@ def judge(case, im, mo):
     j0 = case['fidx'][0]
     for i in range(nsel):
         mv = mo[1 + i]
-        if float(mv) == 0.0:
+        if float(mv) == 0.0 or 'extreme-scale-skipped' in tags:
             continue
         for pos, (fi, cj) in enumerate(clist):
             if fi == i and 0 in groups[cj]:
